@@ -49,6 +49,7 @@ Verdict(r) ==
        \cup SameAtoms(r.g, r.bk, "from_rdkit(to_rdkit)", FALSE)
        \cup (IF r.dative THEN {} ELSE SameAtoms(r.r0, r.fr, "from_rdkit", TRUE))
        \cup SameAtoms(r.g0, r.tr0, "to_rdkit(keep_mapping=False)", FALSE)
+       \cup If(dom /\ r.bk_s # r.m_s, "from_rdkit(to_rdkit):another-configuration")
        \cup If(~r.dative /\ r.rs_conv0 # r.rs_ref0, "to_rdkit:rdkit-sees-another-constitution")
        \cup If(~r.dative /\ dom /\ r.rs_conv # r.rs_ref, "to_rdkit:rdkit-sees-another-configuration")
        \cup If(~RadicalsInferred(r) /\ r.cs_conv0 # r.cs_ref0, "from_rdkit:another-constitution")
